@@ -183,7 +183,7 @@ theorem flush_normal_step (f : Fmt) (h : WF f) (x : Nat) (hx : x < 2 ^ f.width) 
   rw [flushOrd_normal f _ hn', flushOrd_normal f x hn, hs]
   split <;> split <;> omega
 
-/-! ## ulp -/
+/-! ## ulp  (the code as of /repo commit d4402b6, which added the subnormal branch) -/
 
 /-- **ulp_normal** ("for finite x = m·2^e, ulp(x) == 2^e", normal x of either sign): `ulp x` is a
 finite non-negative pattern whose value is `2^(E−1)` units of `2^emin`, `E` the exponent field of `x`,
@@ -196,40 +196,51 @@ theorem ulp_normal (f : Fmt) (h : WF f) (x : Nat) (hx : x < 2 ^ f.width) (fx : i
   have hinf := infBits_add f h
   have hF := F_pos f
   obtain ⟨hv, hl⟩ := ulp_normal' f h _ hn hm
-  rw [ulp_abs f h x hx, sval_of_lt f _ (by omega), hv]
+  rw [ulp_of_normal f h x hx (Or.inr hn), ulp_abs f h x hx, sval_of_lt f _ (by omega), hv]
   refine ⟨by push_cast; rfl, hl, ?_⟩
   have hq : magBits f x / 2 ^ f.fracBits ≠ 0 :=
     Nat.pos_iff_ne_zero.mp ((Nat.le_div_iff_mul_le hF).2 (by rw [Nat.one_mul]; exact hn))
   unfold magVal; simp only [hq, if_false]
 
-/-
-**ulp_next** — full statement of the docstring identities (FALSE of the code as written):
-    ∀ finite x ≥ 0 below max,  x + ulp(x) == nextafter(x, inf)      i.e.  sval (nextUp x) = sval x + sval (ulp x)
-    ∀ finite x < 0 above -max, x − ulp(x) == nextafter(x, −inf)     i.e.  sval (nextDown x) = sval x − sval (ulp x)
-It fails exactly on the subnormals (`ulp_subnormal_is_zero`, `ulp_next_fails_subnormal`, witnesses
-below): `numpy.ldexp(1, frexp(x)[1] + negep)` underflows to 0 there.
--/
+/-- **ulp_subnormal** ("ulp(x) == 2^e" on subnormals, `e = emin`): for every subnormal `x` of either
+sign `ulp x` is the smallest positive subnormal (value one unit of `2^emin`), the spacing there. -/
+theorem ulp_subnormal (f : Fmt) (h : WF f) (x : Nat) (hx : x < 2 ^ f.width)
+    (h0 : magBits f x ≠ 0) (hs : magBits f x < f.minNormalBits) : ulp f x = 1 ∧ sval f 1 = 1 := by
+  have hF := F_ge2 f h
+  have hinf := infBits_add f h
+  have h3 := minNormal_le_inf f h
+  exact ⟨ulp_of_subnormal f h x hx h0 hs, by rw [sval_of_lt f 1 (by omega), magVal_small f 1 (by omega)]; rfl⟩
 
-/-- **ulp_next_partial**: `x ≥ 0` finite, zero (either sign) or normal, below max: the exact sum
-`x + ulp x` is the value of the upper neighbour (which is finite, so IEEE addition returns it). -/
-theorem ulp_next_partial (f : Fmt) (h : WF f) (x : Nat) (hx : x < 2 ^ f.width) (fx : isFiniteBits f x = true)
-    (hge : pyLt0 f x = false) (hcls : magBits f x = 0 ∨ f.minNormalBits ≤ magBits f x) (hmax : x ≠ f.maxBits) :
+/-- **ulp_next** (full strength; docstring: `x + ulp(x) == nextafter(x, inf) if x >= 0`): for EVERY
+finite `x ≥ 0` below max — both zeros, every subnormal, every normal — the exact sum `x + ulp x` is the
+value of the upper neighbour, which is finite (so IEEE addition returns it). -/
+theorem ulp_next (f : Fmt) (h : WF f) (x : Nat) (hx : x < 2 ^ f.width) (fx : isFiniteBits f x = true)
+    (hge : pyLt0 f x = false) (hmax : x ≠ f.maxBits) :
     sval f (nextUp f x) = sval f x + sval f (ulp f x) ∧ isFiniteBits f (nextUp f x) = true :=
-  ⟨ulp_next' f h x hx fx hge hcls hmax, nextUp_finite f h x hx fx hmax⟩
+  ⟨ulp_next_full f h x hx fx hge hmax, nextUp_finite f h x hx fx hmax⟩
 
 /-- **ulp_next_max**: at `x = max` the exact sum `x + ulp x` is `2^(emax+1)`, strictly above every
 finite value of the format (IEEE round-to-nearest returns `+inf = nextUp max`). -/
 theorem ulp_next_max (f : Fmt) (h : WF f) :
     sval f f.maxBits + sval f (ulp f f.maxBits) = ((2 ^ f.fracBits * 2 ^ (f.expMax - 1) : Nat) : Int) ∧
     (∀ y, isFiniteBits f y = true → sval f y < ((2 ^ f.fracBits * 2 ^ (f.expMax - 1) : Nat) : Int)) ∧
-    nextUp f f.maxBits = f.infBits :=
-  ⟨(ulp_next_max' f h).1, (ulp_next_max' f h).2, (nextUp_max' f h).1⟩
+    nextUp f f.maxBits = f.infBits := by
+  have hF := F_ge2 f h
+  have hinf := infBits_add f h
+  have h3 := minNormal_le_inf f h
+  have hw := width_eq f h
+  have hmn : f.minNormalBits = 2 ^ f.fracBits := rfl
+  have hlt : f.maxBits < f.signBit := by unfold Fmt.maxBits; omega
+  have hcls : f.minNormalBits ≤ magBits f f.maxBits := by rw [magBits_of_lt f _ hlt]; unfold Fmt.maxBits; omega
+  rw [ulp_of_normal f h _ (by omega) (Or.inr hcls)]
+  exact ⟨(ulp_next_max' f h).1, (ulp_next_max' f h).2, (nextUp_max' f h).1⟩
 
-/-- **ulp_prev_partial**: `x < 0` finite normal: the exact difference `x − ulp x` is the value of the
-lower neighbour (for `x = −max` the right-hand side is `−2^(emax+1)`, i.e. `−inf` after rounding). -/
-theorem ulp_prev_partial (f : Fmt) (h : WF f) (x : Nat) (hx : x < 2 ^ f.width) (fx : isFiniteBits f x = true)
-    (hlt : pyLt0 f x = true) (hn : f.minNormalBits ≤ magBits f x) :
-    sval f (nextDown f x) = sval f x - sval f (ulp f x) := ulp_prev' f h x hx fx hlt hn
+/-- **ulp_prev** (full strength; docstring: `x - ulp(x) == nextafter(x, -inf) if x < 0`): for EVERY
+finite `x < 0` — subnormal or normal — the exact difference `x − ulp x` is the value of the lower
+neighbour (for `x = −max` that is `−2^(emax+1)`, i.e. `−inf` after rounding, cf. `ulp_next_max`). -/
+theorem ulp_prev (f : Fmt) (h : WF f) (x : Nat) (hx : x < 2 ^ f.width) (fx : isFiniteBits f x = true)
+    (hlt : pyLt0 f x = true) :
+    sval f (nextDown f x) = sval f x - sval f (ulp f x) := ulp_prev_full f h x hx fx hlt
 
 /-- `ulp(±0)` is the smallest positive subnormal -/
 theorem ulp_zero (f : Fmt) (h : WF f) : ulp f 0 = 1 ∧ ulp f f.signBit = 1 ∧ sval f 1 = 1 := by
@@ -238,66 +249,48 @@ theorem ulp_zero (f : Fmt) (h : WF f) : ulp f 0 = 1 ∧ ulp f f.signBit = 1 ∧ 
   have h3 := minNormal_le_inf f h
   have hw := width_eq f h
   have hS : f.signBit < 2 ^ f.width := by omega
-  refine ⟨ulp_zero' f h, ?_, ?_⟩
-  · rw [ulp_abs f h _ hS]
-    have : magBits f f.signBit = 0 := by unfold magBits; exact Nat.mod_self _
-    rw [this]; exact ulp_zero' f h
+  have hm0 : magBits f 0 = 0 := by unfold magBits; exact Nat.zero_mod _
+  have hmS : magBits f f.signBit = 0 := by unfold magBits; exact Nat.mod_self _
+  refine ⟨?_, ?_, ?_⟩
+  · rw [ulp_of_normal f h 0 (by omega) (Or.inl hm0)]; exact ulp_zero' f h
+  · rw [ulp_of_normal f h _ hS (Or.inl hmS), ulp_abs f h _ hS, hmS]; exact ulp_zero' f h
   · rw [sval_of_lt f 1 (by omega), magVal_small f 1 (by omega)]; rfl
 
 /-- `ulp(-x) == ulp(x)` for every pattern -/
 theorem ulp_neg (f : Fmt) (h : WF f) (x : Nat) (hx : x < 2 ^ f.width) : ulp f (negBits f x) = ulp f x :=
-  ulp_neg' f h x hx
+  ulp_neg_new f h x hx
 
 /-- `ulp(±inf) == inf` -/
-theorem ulp_inf (f : Fmt) (x : Nat) (hinf : (decode f x).isInf = true) : ulp f x = f.infBits := ulp_inf' f x hinf
+theorem ulp_inf (f : Fmt) (x : Nat) (hinf : (decode f x).isInf = true) : ulp f x = f.infBits := ulp_inf_new f x hinf
 
 /-- `ulp(nan)` is a NaN -/
 theorem ulp_nan (f : Fmt) (h : WF f) (x : Nat) (hnan : (decode f x).isNaN = true) : isNaNBits f (ulp f x) = true :=
-  ulp_nan' f h x hnan
+  ulp_nan_new f h x hnan
 
-/-- **finding**: for EVERY subnormal `x` of either sign, in every format, `ulp x` is `+0`
-(`ldexp` underflow). -/
-theorem ulp_subnormal_is_zero (f : Fmt) (h : WF f) (x : Nat) (hx : x < 2 ^ f.width)
-    (h0 : magBits f x ≠ 0) (hs : magBits f x < f.minNormalBits) : ulp f x = 0 := ulp_subnormal f h x hx h0 hs
+/-- the fix is exactly one branch: the current `ulp` is the pre-fix function `ulpOld` except on
+non-zero subnormals, where it returns the smallest subnormal. -/
+theorem ulp_eq_old_plus_branch (f : Fmt) (h : WF f) (x : Nat) (hx : x < 2 ^ f.width) :
+    ulp f x = if magBits f x ≠ 0 ∧ magBits f x < f.minNormalBits then 1 else ulpOld f x :=
+  ulp_eq_repaired f h x hx
 
-/-- **negation of ulp_next on subnormals**: for every positive subnormal `x` the docstring identity
-`x + ulp(x) == nextafter(x, inf)` is false: the sum is `x` itself, strictly below the neighbour. -/
-theorem ulp_next_fails_subnormal (f : Fmt) (h : WF f) (x : Nat) (h0 : x ≠ 0) (hs : x < f.minNormalBits) :
-    sval f x + sval f (ulp f x) = sval f x ∧ sval f x < sval f (nextUp f x) := by
-  have hF := F_ge2 f h
-  have hinf := infBits_add f h
-  have h3 := minNormal_le_inf f h
-  have hw := width_eq f h
-  have hmn : f.minNormalBits = 2 ^ f.fracBits := rfl
-  have hS : x < f.signBit := by omega
-  have hx : x < 2 ^ f.width := by omega
-  have hmag := magBits_of_lt f x hS
-  have fx : isFiniteBits f x = true := (finite_iff f h x).2 (by omega)
-  have hu := ulp_subnormal f h x hx (by omega) (by omega)
-  have hz : sval f 0 = 0 := by rw [sval_of_lt f 0 (by omega), magVal_zero]; rfl
-  refine ⟨by rw [hu, hz]; omega, ?_⟩
-  rw [sval_lt_iff, (ord_succ' f h x hx fx).1]; omega
+/-! ### regression witnesses for the defect repaired by d4402b6 (about `ulpOld`, not about the code) -/
 
-/-- **ulp_next_repaired** (about the repair, not about the code): with the single extra branch
-"`0 < |x| < smallest_normal` → `smallest_subnormal`" the identity `x + ulp(x) == nextafter(x, inf)` holds for
-EVERY finite `x ≥ 0` below max, in every format — the finding is exactly the missing branch. -/
-theorem ulp_next_repaired (f : Fmt) (h : WF f) (x : Nat) (hx : x < 2 ^ f.width) (fx : isFiniteBits f x = true)
-    (hge : pyLt0 f x = false) (hmax : x ≠ f.maxBits) :
-    sval f (nextUp f x) = sval f x + sval f (ulpRepaired f x) ∧
-    (magBits f x = 0 ∨ f.minNormalBits ≤ magBits f x → ulpRepaired f x = ulp f x) := by
-  refine ⟨ulp_next_repaired' f h x hx fx hge hmax, ?_⟩
-  intro hc; unfold ulpRepaired; rw [if_neg (by omega)]
+/-- the pre-fix function returned `+0` for EVERY subnormal `x` of either sign, in every format
+(`ldexp` underflow), so `x ± ulp x` was `x` itself. -/
+theorem ulp_old_subnormal_is_zero (f : Fmt) (h : WF f) (x : Nat) (hx : x < 2 ^ f.width)
+    (h0 : magBits f x ≠ 0) (hs : magBits f x < f.minNormalBits) : ulpOld f x = 0 := FAVerif.Ulp.ulp_subnormal f h x hx h0 hs
 
-/-- negation witness (binary64, replayed on the real code): `x = 5e-324` (pattern 1):
-`ulp x` is `+0`, whereas `nextafter(x, inf)` is pattern 2 with twice the value. -/
-theorem ulp_witness_binary64 :
-    ulp binary64 1 = 0 ∧ nextUp binary64 1 = 2 ∧ sval binary64 1 + sval binary64 (ulp binary64 1) = 1 ∧
-    sval binary64 (nextUp binary64 1) = 2 := by decide
+/-- regression witness (binary64, `x = 5e-324`, pattern 1; replayed on the real code by the search):
+before the fix `ulp x` was `+0`; now it is pattern 1 and `x + ulp x` is the neighbour, pattern 2. -/
+theorem ulp_regression_binary64 :
+    ulpOld binary64 1 = 0 ∧ ulp binary64 1 = 1 ∧ nextUp binary64 1 = 2 ∧
+    sval binary64 (nextUp binary64 1) = sval binary64 1 + sval binary64 (ulp binary64 1) := by decide
 
-/-- negation witness (binary16): the largest subnormal `0x03ff` and the negative subnormal `0x8200` -/
-theorem ulp_witness_binary16 :
-    ulp binary16 0x03ff = 0 ∧ nextUp binary16 0x03ff = 0x0400 ∧ ulp binary16 0x8200 = 0 ∧
-    nextDown binary16 0x8200 = 0x8201 ∧ ulp binary16 0x0400 = 1 := by decide
+/-- regression witness (binary16): the largest subnormal `0x03ff` and the negative subnormal `0x8200` -/
+theorem ulp_regression_binary16 :
+    ulpOld binary16 0x03ff = 0 ∧ ulp binary16 0x03ff = 1 ∧ nextUp binary16 0x03ff = 0x0400 ∧
+    ulpOld binary16 0x8200 = 0 ∧ ulp binary16 0x8200 = 1 ∧ nextDown binary16 0x8200 = 0x8201 ∧
+    ulp binary16 0x0400 = 1 := by decide
 
 /-! ## non-vacuity: the hypotheses are met by concrete non-trivial instances -/
 
@@ -330,6 +323,12 @@ example : pyLt0 binary16 0x3c00 = false ∧ binary16.minNormalBits ≤ magBits b
     ulp binary16 0x3c00 = 0x1400 ∧ ulp binary16 0x7bff = 0x5000 ∧ ulp binary16 0x7c00 = 0x7c00 ∧
     pyLt0 binary16 0xbc00 = true ∧
     sval binary16 (nextDown binary16 0xbc00) = sval binary16 0xbc00 - sval binary16 (ulp binary16 0xbc00) := by decide
+
+/-- ulp identities at subnormals of both signs (binary16: 0x0001, 0x03ff → first normal, 0x8200) -/
+example : pyLt0 binary16 0x0001 = false ∧ isFiniteBits binary16 0x03ff = true ∧ (0x03ff : Nat) ≠ binary16.maxBits ∧
+    sval binary16 (nextUp binary16 0x03ff) = sval binary16 0x03ff + sval binary16 (ulp binary16 0x03ff) ∧
+    pyLt0 binary16 0x8200 = true ∧
+    sval binary16 (nextDown binary16 0x8200) = sval binary16 0x8200 - sval binary16 (ulp binary16 0x8200) := by decide
 
 /-- complex: max of the components -/
 example : complexDiffUlp binary32 (some false) false (0x3f800000, 0x80000001) (0x3f800003, 0x00000004) = 5 := by decide
